@@ -56,6 +56,34 @@ type loopClient struct {
 	firstRune string
 }
 
+// Inline: small loop-free helpers of the cursor (accept(kind), peek(), isKeyword(...)) are interpreted in place, so
+// that what they read counts on the path that read it (a helper that consumes a token only when it matches).
+func (c *loopClient) Inline(e *Engine, call *ast.CallExpr, callee *types.Func, decl *ast.FuncDecl) bool {
+	if callee.Pkg() == nil || callee.Pkg().Path() != PathParser || !smallBody(decl) {
+		return false
+	}
+	switch fnName(callee) {
+	case "next", "prev", "setPos", "split", "splitSemi", "endSplit":
+		return false
+	}
+	if c.w.p.recordedFunc(callee) {
+		return false // the productions and helpers of the reviewed tree are summarised
+	}
+	loops, calls := false, 0
+	ast.Inspect(decl.Body, func(n ast.Node) bool {
+		switch v := n.(type) {
+		case *ast.ForStmt, *ast.RangeStmt:
+			loops = true
+		case *ast.CallExpr:
+			if f := Callee(e.Info, v); f != nil && cursorOf(f) != "" {
+				calls++
+			}
+		}
+		return true
+	})
+	return !loops && calls > 0 && calls <= 4
+}
+
 func addInt(s string, d int) string {
 	if s == "" || s == "?" {
 		return s
